@@ -372,7 +372,7 @@ pub fn run_history(rng: &mut Rng, rep: &mut Report) {
 }
 
 pub fn run(cfg: &RunCfg) -> Report {
-    let cases = cfg.cases(30_000, 600_000);
+    let cases = cfg.cases(30_000, 2_000_000);
     let mut rep = run_cases(cfg, 0, cases, Duration::from_secs(3600), |_c, rng, rep| run_history(rng, rep));
     if cfg.lane.as_deref() != Some("miri") {
         rep.merge(crate::sim::c05_shell::run(cfg));
